@@ -119,8 +119,11 @@ MathAlgOf(e) ==
     [] e.fn = "exp"  -> Exp(ZJ(e.x), e.D)
     [] e.fn = "powi" -> Powi(ZJ(e.x), e.n, e.D)
     [] e.fn = "pow"  -> Pow(ZJ(e.x), ZJ(e.y), e.D)
+    [] e.fn = "sin"  -> Sin(ZJ(e.x), e.D)
+    [] e.fn = "cos"  -> Cos(ZJ(e.x), e.D)
+    [] e.fn = "tan"  -> Tan(ZJ(e.x), e.D)
 AcceptFidelity(e) ==
-  \/ e.k # "math" \/ e.S # e.D \/ e.fn \notin {"sqrt", "log2", "ln", "exp", "pow", "powi"}
+  \/ e.k # "math" \/ e.S # e.D \/ e.fn \notin {"sqrt", "log2", "ln", "exp", "pow", "powi", "sin", "cos", "tan"}
   \/ (e.fn = "powi" /\ (e.n > 300 \/ e.n < -300))
   \/ LET a == MathAlgOf(e) IN
      \/ a.k = "undef"
